@@ -169,8 +169,8 @@ CHECKS = {
         "ANOVA eta; 1-r) and pairwise associations recomputed, then every returned / omitted feature must be justified",
         "Cluster frames (copies, negations, noisy mixtures, bins, merged bins, constants, feature-specific NaN masks) x "
         "Classification/RegressionSelector x measures x filters x n_best x thresh_corr; several outputs are legal under "
-        "ties, so a predicate is checked rather than one expected list. Exploration. Two open known findings "
-        "(RegressionSelector) are reported as KNOWN-FINDING.",
+        "ties, so a predicate is checked rather than one expected list. Exploration. One open known finding "
+        "(RegressionSelector, qualitative features with missing values) is reported as KNOWN-FINDING.",
         "Trusted: scipy.stats.kruskal/spearmanr and numpy.corrcoef as reference primitives, own chi2. colsample=1, one "
         "user measure per type.",
         "DESIGN.md §4 C14",
